@@ -245,13 +245,13 @@ func (t *fnTrans) methodInvReturn(in *ssa.Return) {
 		}
 	}
 	// objects of such a type allocated here
-	for _, b := range t.fn.Blocks {
+	for _, b := range t.allBlocks() {
 		for _, bi := range b.Instrs {
 			a, isA := bi.(*ssa.Alloc)
 			if !isA || !a.Heap {
 				continue
 			}
-			if _, done := t.vals[a]; !done || !(b == in.Block() || b.Dominates(in.Block())) {
+			if _, done := t.vals[a]; !done || !t.dominates(b, in.Block()) {
 				continue
 			}
 			sa := t.structAnnOf(a.Type())
